@@ -111,6 +111,50 @@ def identity_measure(ck, rule, rcmp):
     ck.floor(f"{rule} identity expressions judged", n, 1)
 
 
+def no_mutable_defaults(ck, rule, modules):
+    """A default value is evaluated once, when the function is defined: a list / dict / set default that the function fills is one
+    object for the whole process - the second comparison starts with the rows of the first."""
+    import ast
+    from ..rules.effects import MUTATORS
+    p = ck.ctx.p
+    ck.clause(rule, "a comparison starts from nothing: no function of the comparer fills (or hands out to be filled) a parameter whose "
+                    "default is a list / dict / set display - the default is one object per process, so every later compare() would begin "
+                    "with the rows of the earlier ones (counts exceed the number of keys, a set compared with itself gets exclusive keys)")
+    n = 0
+    n_fn = 0
+    hit = False
+    for f in p.nontest_functions():
+        if f.is_lambda or f.module.name not in modules:
+            continue
+        n_fn += 1
+        a = f.node.args
+        pos = a.posonlyargs + a.args
+        pairs = list(zip(pos[len(pos) - len(a.defaults):], a.defaults)) + [(k, d) for k, d in zip(a.kwonlyargs, a.kw_defaults) if d is not None]
+        for arg, d in pairs:
+            n += 1
+            mutable = isinstance(d, (ast.List, ast.Dict, ast.Set)) or (
+                isinstance(d, ast.Call) and isinstance(d.func, ast.Name) and d.func.id in ("list", "dict", "set", "defaultdict") )
+            if not mutable:
+                continue
+            filled = [x for x in ast.walk(f.node) if isinstance(x, ast.Call) and isinstance(x.func, ast.Attribute)
+                      and isinstance(x.func.value, ast.Name) and x.func.value.id == arg.arg and x.func.attr in MUTATORS]
+            filled += [x for x in ast.walk(f.node) if isinstance(x, (ast.Assign, ast.AugAssign)) and any(
+                isinstance(t, ast.Subscript) and isinstance(t.value, ast.Name) and t.value.id == arg.arg
+                for t in (x.targets if isinstance(x, ast.Assign) else [x.target]))]
+            filled += [x for x in ast.walk(f.node) if isinstance(x, ast.AugAssign) and isinstance(x.target, ast.Name) and x.target.id == arg.arg]
+            handed_out = [x for x in ast.walk(f.node) if isinstance(x, ast.Return) and isinstance(x.value, ast.Name) and x.value.id == arg.arg]
+            if filled or handed_out:
+                hit = True
+                x = (filled or handed_out)[0]
+                ck.violation(rule, f"{short(f)}:{arg.arg}:mutable-default", where(f, x),
+                             f"parameter `{arg.arg}` defaults to {ast.unparse(d)} - one object for the whole process - and the function "
+                             f"{'fills it' if filled else 'hands it out'}: the second call starts with what the first one left",
+                             found=ast.unparse(x)[:100], required=f"{arg.arg}=None and a fresh list per call")
+    ck.floor(rule + " functions of the comparer modules inspected for defaults", n_fn, 15)
+    if not hit:
+        ck.ok(rule, "comparer modules", "src/diagnostic/alignment_comparer.py", f"{n} defaults: no mutable default is filled or handed out")
+
+
 def run(ck):
     ctx = ck.ctx
     p = ctx.p
@@ -123,6 +167,8 @@ def run(ck):
     from .c02 import records_frozen as _rf19
     _rf19(_RV19(ck, {"C19.6": "C19.6"}, only_files=("src/diagnostic/alignment_comparer.py", "src/diagnostic/benchmark_alignment.py",
                                                     "src/compare_alignments.py")), "C19.6", skip_modules=())
+    if ck.wants("C19.7"):
+        no_mutable_defaults(ck, "C19.7", ("src.diagnostic.alignment_comparer", "src.diagnostic.benchmark_alignment", "src.compare_alignments"))
     cmp_fn = p.find_method("AlignmentComparer", "compare")
     a1, a2 = [V(pp.name) for pp in cmp_fn.call_params()]
     # the private helper that turns an alignment set into its key dictionary: the one compare applies to each of its two arguments
